@@ -143,6 +143,18 @@ func c16Run(r *zsim.Run) {
 			case t.execBeg != 0:
 				r.Failf("wait-ignores-running-execution", "Wait (seq %d..%d) returned while the execute call holding task %d.%d (Add returned at seq %d) was still running", wt.inv, wt.ret, t.adder, t.n, t.addRet)
 			default:
+				// the recorded finding needs an Add that reached the threshold and is still blocked handing its
+				// batch to the flusher; without such an Add in progress the batch was lost from view some other way
+				handing := false
+				for _, u := range all {
+					if u.addInv != 0 && u.addRet == 0 {
+						handing = true
+					}
+				}
+				if !handing {
+					r.Failf("wait-misses-taken-batch", "Wait (seq %d..%d) returned before task %d.%d, whose Add had returned at seq %d, was executed: no Add was in progress, the task was neither in the container nor being executed, so a Flush or tick had taken its batch without registering the execution first", wt.inv, wt.ret, t.adder, t.n, t.addRet)
+					return false
+				}
 				r.Failf("wait-misses-inflight-batch", "Wait (seq %d..%d) returned before task %d.%d, whose Add had returned at seq %d, was executed: its batch had been taken out of the container by a threshold-triggered Add and was still on its way to the background flusher, where Wait does not see it", wt.inv, wt.ret, t.adder, t.n, t.addRet)
 			}
 			return false
